@@ -677,6 +677,16 @@ class Engine:
             # only the trait's default; never inline it unless the caller of the engine says which
             # impl is meant
             tgt = self.trait_dispatch(finfo.get("trait"), finfo.get("method")) if self.trait_dispatch else None
+            if tgt is None and args and args[0][0] == 'ref_t' and args[0][1][0] == 'static':
+                # receiver is a reference to a known static: exact devirtualisation through the impl table
+                sty = self.crate.statics.get(args[0][1][1], {}).get("ty", {})
+                if sty.get("k") == "adt":
+                    for imp in self.crate.impls:
+                        if imp["trait"] == finfo.get("trait") and imp["self_ty"] == sty["path"]:
+                            tgt = imp["methods"].get(finfo.get("method"), "%s::%s" % (finfo.get("trait"), finfo.get("method")))
+                            self_ty_imp = imp
+                            # default methods called on this receiver must dispatch to the same impl
+                            break
             name = tgt if tgt else "dyn:%s::%s" % (finfo.get("trait"), finfo.get("method"))
         diverges = t["target"] is None
         ev = self.record_event(site, name, args, st.facts, t["at"], func)
